@@ -4,8 +4,9 @@ from __future__ import annotations
 import ast
 
 from ..consteval import ConstEval
+from ..cfg import CFG
 from ..core import AnalysisError, ClassInfo, FuncInfo, own_nodes, parent, short, unparse
-from ..rules import exa, exc, isdrules
+from ..rules import lint, exa, exc, isdrules
 from ..typing_lite import Typer
 from . import common
 
@@ -169,6 +170,16 @@ def check_style_precedence(ctx):
   t = unparse(mc.node)
   ctx.check("style_refs.pop()" in t and ".setdefault(" in t and "self.merge_chained_styles(" in t, "PRI-style", f"{mc.qualname}|chained references: last reference wins, own values win",
             ctx.where(mc.module, mc.node), "pop() from the end + setdefault, recursive", "chained referential styling no longer pops references last-first with setdefault (priority of later references / own values lost)")
+  # the referenced style is flattened (recursion) before its properties are copied
+  rec = [c for c in own_nodes(mc.node) if isinstance(c, ast.Call) and unparse(c.func).endswith("merge_chained_styles")]
+  copies = [c for c in own_nodes(mc.node) if isinstance(c, ast.Call) and isinstance(c.func, ast.Attribute) and c.func.attr in ("setdefault", "update") and "styles" in unparse(c.func.value)]
+  if rec and copies:
+    cfg = CFG(mc.node)
+    dom = cfg.dominators()
+    rid = cfg.stmt_node_containing(rec[0])
+    ok = all(rid in dom.get(cfg.stmt_node_containing(c), ()) for c in copies)
+    ctx.check(ok, "PRI-style", f"{mc.qualname}|a referenced style is flattened before it is copied", ctx.where(mc.module, rec[0]), "the recursive call dominates the copy of the referenced style's properties",
+              "the properties of a referenced style are copied before that style's own references are merged into it: properties reached through two or more levels of chaining are lost")
 
 
 def _anc(node, stop):
@@ -375,4 +386,5 @@ def run(ctx):
   na = check_optional_arithmetic(ctx, common.funcs(ctx, [EL]))
   ctx.floor("NUL-arith", "arithmetic uses of optional temporal fields", na, 4)
   check_timing_arithmetic(ctx)
+  lint.falsy_numeric_default(ctx, common.mods(ctx, ["ttconv.imsc.attributes", "ttconv.imsc.utils", "ttconv.imsc.style_properties", "ttconv.utils"]))
   common.check_history_independence(ctx, ["ttconv.imsc.reader", "ttconv.imsc.elements", "ttconv.imsc.attributes", "ttconv.imsc.utils", "ttconv.imsc.style_properties", "ttconv.imsc.namespaces", "ttconv.utils", "ttconv.model", "ttconv.style_properties"])
